@@ -26,6 +26,7 @@ class ConnCheck(F.Check):
         model = self.make_model(ex, cfg)
         world = W.World(model.server, max_waits=cfg.get('max_waits', 40))
         world.chooser = ch
+        world.selector_kind = cfg.get('selector', 'fake')
         with world:
             ws = W.L_websocket.WebSocket(cfg.get('url', self.url), proxies={}, compress=cfg.get('compress', False))
             world._ws = ws
